@@ -17,6 +17,9 @@ OPL writer (append_utf8_encoded_string) against the OPL reader (opl_parse_string
         nibbles in strictly descending order, a nibble (of any position a reaching value can occupy) is dropped only
         when it is zero, a lower nibble is never dropped while a higher one is written, at least one digit.
  O5-hex-length-within-reader-limit  the longest numeral a writer call site can produce fits the reader's digit limit.
+ O8-escaped-value-is-codepoint  the value handed to every hex formatter (or used by inline digit writes) is the decoded code point:
+        the variable initialised from next_utf8_codepoint, or a term that is bit-for-bit the identity on the reaching set; anything
+        not computed from it (a raw input byte, a cast of *prev) is a violation.
  O6-passthrough-verbatim   the verbatim branch appends exactly the bytes [cursor before decode, cursor after decode).
  O7-opl-strings-escaped    every const char* accessor of an OSM object used by OPLOutputBlock flows into the escaper.
 OPL reader:
@@ -160,9 +163,11 @@ class WriterModel(object):
                 args = args[1:]
             uses_c = any(self.d_c in vars_in(fn, a) for a in args)
             ix = fn.sn(args[0]) if (kind == 'member' and len(args) == 1) else None
-            if kind == 'free' and uses_c and n.get('q', '').startswith(NS):
+            has_alphabet = kind == 'free' and any(string_literal(fn, a) is not None and len(string_literal(fn, a)) >= 16 for a in args)
+            if kind == 'free' and n.get('q', '').startswith(NS) and (uses_c or has_alphabet):
                 self.emitters.append(n)
-            elif ix is not None and n.get('q') in STR_APPENDERS and uses_c and ix.get('k') == 'index' and string_literal(fn, ix['base']) is not None:
+            elif ix is not None and n.get('q') in STR_APPENDERS and ix.get('k') == 'index' and (string_literal(fn, ix['base']) or '') != '' \
+                    and len(string_literal(fn, ix['base'])) >= 16:
                 self.digits.append(n)         # a hex digit written inline: out += alphabet[<nibble of c>]
             elif kind == 'member' and n.get('q') in STR_APPENDERS and len(args) == 1 and fn.const_value(args[0]) is not None:
                 self.frames.append(n)
@@ -637,9 +642,8 @@ def _o4_o5(fb, R, wm, rm):
     for (call, V) in wm.E:
         q = call['q']
         dp = emitter_program(fb, q, V)
-        # the value argument is the code point, the alphabet argument is the literal
-        if not is_var(wm.fn, call['args'][dp.i_val], wm.d_c):
-            raise Broken('%s: value argument of %s is not the decoded code point' % (WR, q))
+        # O8: the value handed to the formatter is the decoded code point (the variable the pass-through and width tests read)
+        _check_value_is_codepoint(R, wm, call['args'][dp.i_val], V, '%s#value-of#%s' % (WR, q), wm.fn.loc(call['id']), 'handed to %s' % q)
         ai, _lit = _emitter_alphabet(wm, call)
         if ai != dp.i_alpha:
             raise Broken('%s: alphabet literal is not passed as the alphabet parameter of %s' % (WR, q))
@@ -650,8 +654,35 @@ def _o4_o5(fb, R, wm, rm):
         callee = make_callee_summary(fb)
         for n in wm.digits:
             V = V | var_guard_set(wm.fn, n['id'], wm.d_c, CODEPOINTS, res, callee)
-        dp = DigitProgram(wm.fn, wm.d_out, wm.d_c, lambda f, base: string_literal(f, base) is not None, V, only={n['id'] for n in wm.digits})
-        _check_numeral(R, dp, V, WR, wm.fn.loc(wm.digits[0]['id']), maxd, iters)
+        res = unique_def_resolver(wm.fn)
+        foreign = [n for n in wm.digits if not depends_on(wm.fn, wm.fn.sn(n['args'][0])['idx'], wm.d_c, res)]
+        R.check(not foreign, 'O8-escaped-value-is-codepoint', '%s#value-of#inline-digits' % WR, wm.fn.loc((foreign or wm.digits)[0]['id']),
+                'a hex digit is computed from %s, not from the decoded code point' % (wm.fn.expr(wm.fn.sn(foreign[0]['args'][0])['idx']) if foreign else ''))
+        if not foreign:
+            dp = DigitProgram(wm.fn, wm.d_out, wm.d_c, lambda f, base: string_literal(f, base) is not None, V, only={n['id'] for n in wm.digits})
+            _check_numeral(R, dp, V, WR, wm.fn.loc(wm.digits[0]['id']), maxd, iters)
+
+
+def _check_value_is_codepoint(R, wm, arg, V, key, site, what):
+    """The expression `arg` denotes the decoded code point for every value in V: it is the variable itself, or a term over
+    it whose bit-slice evaluation is the identity on V (a widening / same-width cast, `c & 0xff` where c <= 0xff)."""
+    rule = 'O8-escaped-value-is-codepoint'
+    fn = wm.fn
+    res = unique_def_resolver(fn)
+    if is_var(fn, arg, wm.d_c):
+        R.ok(rule, key, site)
+        return
+    if not depends_on(fn, arg, wm.d_c, res):
+        R.bad(rule, key, site, 'the value %s is %s, which is not computed from the decoded code point (a raw input byte is not the code point: '
+              'every escaped code point >= U+0080 of that sequence length is written as the same number)' % (what, fn.expr(arg)))
+        return
+    width = max(V.max().bit_length(), 1) if V else 1
+    bits = Bits(fn, lambda f, x: 'c' if x.get('k') == 'var' and x.get('d') == wm.d_c else None, {'c': width}, res)
+    try:
+        same = bits.eval(arg) == bits.input_vec('c')
+    except Unsupported as e:
+        raise Broken('%s: cannot decide whether %s equals the decoded code point: %s' % (WR, fn.expr(arg), e))
+    R.check(same, rule, key, site, 'the value %s is %s, which differs from the decoded code point for some of %s' % (what, fn.expr(arg), V.fmt()))
 
 
 def _check_numeral(R, dp, V, q, call_site, maxd, iters):
@@ -1602,6 +1633,7 @@ def run(ctx):
     R.expect('O4-hex-digits-positional', 22)         # 2-digit emitter: 5, min-4 emitter: 17
     R.expect('O5-hex-length-within-reader-limit', 2)
     R.expect('O6-passthrough-verbatim', 1)
+    R.expect('O8-escaped-value-is-codepoint', 2)     # both formatter calls
     R.expect('O7-opl-strings-escaped', 6)            # forwarder + key, value, user, role, changeset user
     R.expect('R1-unescape-accumulates-hex', 9)
     R.expect('R3-verbatim-copy-excludes-structural', 8)  # introducer, writer frame, 3 separators after strings, 2 section sets, NUL
@@ -1633,6 +1665,6 @@ def _selftest_all(fb, R):
 
 SELFTESTS = [(rule, 'c14_escape.cpp', _selftest_all) for rule in (
     'O1-passthrough-disjoint-delims', 'O2-escape-frame', 'O3-hex-alphabet', 'O4-hex-digits-positional', 'O5-hex-length-within-reader-limit',
-    'O6-passthrough-verbatim', 'O7-opl-strings-escaped', 'R1-unescape-accumulates-hex', 'R3-verbatim-copy-excludes-structural', 'R2-utf8-encoder-table', 'X1-xml-entity-table',
+    'O6-passthrough-verbatim', 'O8-escaped-value-is-codepoint', 'O7-opl-strings-escaped', 'R1-unescape-accumulates-hex', 'R3-verbatim-copy-excludes-structural', 'R2-utf8-encoder-table', 'X1-xml-entity-table',
     'X2-xml-strings-escaped', 'X3-xml-text-chunks-appended', 'N1-cursor-advance-guarded', 'N2-utf8-decode-bounded', 'N3-utf8-length-table', 'N4-end-is-strlen',
     'U2-utf8-decode-assembly')]
